@@ -138,6 +138,36 @@ def run(ctx: Ctx) -> int:
     cp_stores = [s for s in walk_local(act_fn) if isinstance(s, ast.Assign) and ((isinstance(s.targets[0], ast.Subscript) and const_str(s.targets[0].slice) == "class_path") or (isinstance(s.targets[0], ast.Attribute) and s.targets[0].attr == "class_path")) and root_name(s.targets[0]) == "value"]
     ctx.oblige("C14.b", not cp_stores, cp_stores[0] if cp_stores else act_fn, "class_path is not rewritten inside adapt_class_type" if not cp_stores else "adapt_class_type rewrites class_path after importing the class", fn=act_fn, construct="class_path stable")
 
+    # what is carried over from the previous value (dict_kwargs) is used only for the same class
+    carry = []
+    for s_ in walk_local(act_fn):
+        if isinstance(s_, ast.Assign) and "prev_val" in ast.unparse(s_.value) and "dict_kwargs" in ast.unparse(s_.value) and root_name(s_.targets[0]) == "dict_kwargs":
+            carry.append(s_)
+    ctx.need(carry, "adapt_class_type: merge of the previous dict_kwargs")
+    for s_ in carry:
+        same = False
+        for t, pol in guard_chain(s_):
+            for cmp_ in [x for x in ast.walk(t) if isinstance(x, ast.Compare) and len(x.ops) == 1 and isinstance(x.ops[0], ast.Eq)]:
+                txt = ast.unparse(cmp_)
+                if "class_path" in ast.unparse(cmp_.left) and "class_path" in ast.unparse(cmp_.comparators[0]) and "prev_val" in txt and "value" in txt and pol:
+                    same = True
+        ctx.oblige("C14.b", same, s_, "dict_kwargs of the previous value are merged only when the class_path is unchanged" if same else "dict_kwargs configured for the previous class are merged without a same-class test: they leak into a different class when a later source changes class_path", fn=act_fn)
+    # the normalised class_path re-imports to the very object that was checked
+    gip = ctx.func("_util:get_import_path")
+    gg = ctx.cfg(gip)
+    n_ip = 0
+    for lp in [n_ for n_ in walk_local(gip) if isinstance(n_, ast.For)]:
+        for s_ in walk_local(lp):
+            if isinstance(s_, ast.Assign) and isinstance(s_.targets[0], ast.Name) and s_.targets[0].id == "path":
+                n_ip += 1
+                ok = False
+                for t, pol in guard_chain(s_, stop=lp):
+                    for cmp_ in [x for x in ast.walk(t) if isinstance(x, ast.Compare) and len(x.ops) == 1 and isinstance(x.ops[0], (ast.Is, ast.Eq))]:
+                        if pol and (root_name(cmp_.comparators[0]) == "value" or root_name(cmp_.left) == "value"):
+                            ok = True
+                ctx.oblige("C14.b", ok, s_, "a shorter import path is chosen only if it resolves to the same object" if ok else "a shorter import path is chosen without checking that it resolves to the same object: class_path can be rewritten to a different class of the same name", fn=gip)
+    ctx.floor("C14.b-import-path-shortcuts", n_ip, 2)
+
     # ---------------- C14.c nested first, exactly one construction --------------
     nested = [s for s in walk_local(act_fn) if isinstance(s, ast.Assign) and root_name(s.targets[0]) == "init_args" and isinstance(s.value, ast.Call) and call_leaf(s.value) == "instantiate_classes" and root_name(s.value.func) == "parser"]
     top_inst = [c for c in calls_in(act_fn) if isinstance(c.func, ast.Name) and c.func.id == "instantiator_fn"]
